@@ -7,7 +7,7 @@ From Coq Require Import List NArith ZArith String Reals.
 From Coq Require Import Strings.Byte.
 From Flocq Require Import Core IEEE754.BinarySingleNaN.
 From GoBT Require Import lib.Bytes lib.Hex lib.Parse lib.VarInt model.Tx proofs.TxProofs
-  model.Amount proofs.AmountProofs model.Json proofs.JsonProofs.
+  model.Amount proofs.AmountProofs model.Json proofs.JsonProofs proofs.AuditC16.
 Import ListNotations.
 Local Open Scope N_scope.
 
@@ -61,7 +61,10 @@ Theorem C16_tx_roundtrip_inputs : forall g,
 Proof. exact tx_roundtrip_inputs. Qed.
 Print Assumptions C16_tx_roundtrip_inputs.
 
-(** node dialect ([script_info] stands for bscript's ToASM / Addresses / ScriptType) *)
+(** node dialect ([script_info] stands for bscript's ToASM / Addresses / ScriptType).
+    (The marshalled document always carries "hex", so this round trip goes through the hex shortcut and no
+    floating-point amount is involved; the vin/vout path is [C16_node_fields_roundtrip].  Marshalling succeeds
+    whenever the script oracle does: [C16_node_marshal_tx_ok].) *)
 Theorem C16_node_tx_json_roundtrip : forall script_info prev g j, wf_gtx g -> ~ ambiguous (plain_tx g) ->
   node_marshal_tx script_info g = JOk j -> node_unmarshal_tx prev j = JOk (tx_back g).
 Proof. exact node_tx_json_roundtrip. Qed.
@@ -101,6 +104,30 @@ Theorem C16_node_marshal_no_panic : forall script_info g,
   (forall s, script_info s <> JPanic) -> outs_set g -> node_marshal_tx script_info g <> JPanic.
 Proof. exact node_marshal_tx_no_panic. Qed.
 Print Assumptions C16_node_marshal_no_panic.
+
+(** [outs_set] - the hypothesis of the two theorems above - is established by every decoder: a transaction
+    that came in through hex, the library dialect or the node dialect has all its locking scripts set *)
+Theorem C16_tx_from_hex_outs_set : forall s g, tx_from_hex s = JOk g -> outs_set g.
+Proof. exact tx_from_hex_outs_set. Qed.
+Print Assumptions C16_tx_from_hex_outs_set.
+Theorem C16_unmarshal_tx_outs_set : forall prev j g, outs_set prev -> unmarshal_tx prev j = JOk g -> outs_set g.
+Proof. exact unmarshal_tx_outs_set. Qed.
+Print Assumptions C16_unmarshal_tx_outs_set.
+Theorem C16_node_unmarshal_tx_outs_set : forall prev j g, node_unmarshal_tx prev j = JOk g -> outs_set g.
+Proof. exact node_unmarshal_tx_outs_set. Qed.
+Print Assumptions C16_node_unmarshal_tx_outs_set.
+
+(** node marshalling succeeds whenever the script oracle does (so the node round trips are not vacuous) *)
+Theorem C16_node_marshal_tx_ok : forall script_info,
+  (forall s, exists i, script_info s = JOk i) ->
+  forall g, outs_set g -> exists j, node_marshal_tx script_info g = JOk j.
+Proof. exact node_marshal_tx_ok. Qed.
+Print Assumptions C16_node_marshal_tx_ok.
+
+(** distinct amounts have distinct coin values on the quantified range *)
+Theorem C16_of_sat_injective : forall a b, a <= max_money -> b <= max_money -> of_sat a = of_sat b -> a = b.
+Proof. exact of_sat_injective. Qed.
+Print Assumptions C16_of_sat_injective.
 
 (** ** outputs and UTXOs *)
 Theorem C16_output_json_roundtrip : forall o, wf_goutput o ->
